@@ -175,6 +175,11 @@ def _run_chunk(exe, script_path, trace_path, episodes, wall_timeout, lo, hi):
             start = (last["ep"] if last else start) + 1
             restarts += 1
             continue
+        if p.returncode in (-9, 137):
+            # SIGKILL never comes from the code under test (a Rust abort is SIGABRT, a wild access SIGSEGV/SIGBUS):
+            # the kernel's out-of-memory killer or an operator ended the executor. Not an observation of sux.
+            raise ToolError("executor was killed by SIGKILL (out of memory on this machine?) in episode %s of %s"
+                            % ((last or {}).get("ep", start), script_path))
         if p.returncode < 0 or p.returncode in (134, 139):
             sig = -p.returncode if p.returncode < 0 else p.returncode - 128
             if last is None or last["ep"] < start:
